@@ -618,7 +618,7 @@ fn main() {
     run.add("evaluations", totals.battery_answers + totals.matrix_decisions);
     run.add("battery_answers_compared", totals.battery_answers);
     run.add("matrix_decisions_compared", totals.matrix_decisions);
-    run.add("filtered_clones_built", *clones.built.lock());
+    run.add("filtered_clones_built", clones.cache.lock().len() as u64);
     run.add("pruned_noop_sequences", pruned_noop);
     run.add("pruned_known_state_sequences", pruned_state);
     run.add("overdenied_not_a_violation", totals.overdenied);
